@@ -653,10 +653,12 @@ def do_verify(o, info):
     ok = verify_dom(doc, sig, key, ids, _allowed(o), _enabled_key_data(o), info)
     info['ok'] = ok
     r = info.get('refs', (0, 0))
+    new_style = tuple(int(x) for x in VERSION[0].split('.')[:2]) >= (1, 3)
     if ok:
-        return 0, '', 'OK\nSignedInfo References (ok/all): %d/%d\nManifests References (ok/all): 0/0\n' % r
-    return 1, '', ('FAIL\nSignedInfo References (ok/all): %d/%d\nManifests References (ok/all): 0/0\n'
-                   'Error: failed to verify file "%s"\n' % (r[0], r[1], o['pos'][0]))
+        return 0, '', '%s\nSignedInfo References (ok/all): %d/%d\nManifests References (ok/all): 0/0\n' % (
+            ('Verification status: OK' if new_style else 'OK',) + tuple(r))
+    return 1, '', ('%s\nSignedInfo References (ok/all): %d/%d\nManifests References (ok/all): 0/0\n'
+                   'Error: failed to verify file "%s"\n' % ('Verification status: FAILED' if new_style else 'FAIL', r[0], r[1], o['pos'][0]))
 
 
 def do_encrypt(o, info):
@@ -738,13 +740,16 @@ CMDS = {'--sign': do_sign, '--verify': do_verify, '--encrypt': do_encrypt, '--de
         'sign': do_sign, 'verify': do_verify, 'encrypt': do_encrypt, 'decrypt': do_decrypt}
 
 
+VERSION = ['1.2.28']       # what the modelled tool reports; from 1.3 on the verdict lines read 'Verification status: ...'
+
+
 def run(argv):
     info = {}
     try:
         if not argv:
             raise Fail('Error: no command')
         if argv[0] in ('--version', 'version'):
-            return 0, 'xmlsec1 1.2.28 (openssl)\n', '', info
+            return 0, 'xmlsec1 %s (openssl)\n' % VERSION[0], '', info
         if argv[0] in ('--list-transforms', 'list-transforms'):
             return 0, 'Registered transforms klasses:\n' + ','.join('"%s"' % t for t in TRANSFORMS) + '\n', '', info
         if argv[0] not in CMDS:
